@@ -9,7 +9,7 @@
   2. The enumeration is the test plan: TLC prints every tuple with the predicted outcome.  thorough: every tuple; quick:
      every tuple of the small families, every decision branch, an all-pairs cover of the dimensions and a seeded sample.
   3. harness/drv_tls.cpp realises each tuple in a forked child on the real engine (Transport connect / connectSync /
-     TLS listener, HttpClient) against an OpenSSL (or plaintext / garbage) peer with certificates generated through
+     Transport listener, HttpClient, HttpServer) against an OpenSSL (or plaintext / garbage) peer with certificates generated through
      libcrypto, a relay in the middle reading the wire; one ndjson event per tuple (configuration + observables).
   4. TLC validates the events against spec/transport/TlsPolicyTrace.tla (Abs = the property only).  A tuple consumed by a
      named deviation action is classified through its signature (KNOWN-FINDING only if listed as known); any other
@@ -70,7 +70,7 @@ def enumerate_matrix(ck, flags, tag, count=True):
         ck.states += r.distinct
         ck.transitions += r.generated
         for a, (tk, gn) in r.coverage.items():
-            ck.cov[a] = ck.cov.get(a, 0) + tk
+            ck.cov[a] = ck.cov.get(a, 0) + gn
         ck.note("TLC TlsPolicy.tla [%s]: %s" % (tag, r.summary()))
     return r, parse_plan(r)
 
@@ -90,7 +90,7 @@ def select_quick(ck, plan):
         g = c["cfg"]
         big = g["tlsRequested"] and g["tlsEnabled"] and g["peerKind"] == "TLS" and g["serverCert"] not in ("Expired", "KeyMismatch") \
             if g["role"] == "Server" else g["tlsRequested"] and g["tlsEnabled"] and g["peerKind"] == "TLS"
-        if not big:
+        if not big or g["via"] == "HttpServer":
             take(i)
     # the cells the clauses of the property single out, at the default version settings
     for i, c in enumerate(plan):
@@ -238,7 +238,7 @@ def nontrivial(e):
 def run(ck):
     thorough = ck.tier == "thorough"
     ck.rule = ("cases = the reachable initial states of TlsPolicy.tla (the pruned configuration matrix: engine as client via "
-               "Transport connect / connectSync / HttpClient and as TLS listener x TLS requested / configured x peer kind x "
+               "Transport connect / connectSync / HttpClient and as server via a Transport listener / HttpServer x TLS requested / configured x peer kind x "
                "verifyPeer / requireClientCert x trust anchor x server certificate x client certificate x by-name x peer "
                "protocol ceiling TLS 1.0-1.3 x configured minimum x security level), enumerated by TLC; thorough runs every "
                "tuple on the real engine, quick runs the small families, the default-version cells, every decision branch, "
@@ -284,6 +284,15 @@ def run(ck):
     sel = list(range(len(plan))) if thorough else select_quick(ck, plan)
     ck.exhaustive = thorough
     variants = {i: ck.rng.randrange(1000) for i in sel}
+    # `variant` picks the garbage blob (5 kinds) and the way "no TLS context" is configured (2 ways): run those tuples once
+    # per kind as well (copies of the plan entry with ids behind the matrix)
+    for i in list(sel):
+        g = plan[i]["cfg"]
+        if g["peerKind"] == "Garbage" or (g["tlsRequested"] and not g["tlsEnabled"]):
+            for v in range(5 if thorough else 2):
+                plan.append(plan[i])
+                variants[len(plan) - 1] = v
+                sel.append(len(plan) - 1)
     lines = {i: case_line(i, plan[i]["cfg"], variants[i]) for i in sel}
     # ---- 3. run on the code
     events, bad = run_driver(ck, [lines[i] for i in sel], "run")
@@ -297,7 +306,8 @@ def run(ck):
                 len(bad2), [lines[i] for i in bad2[:3]]))
             if len(bad2) > max(3, len(sel) // 100):
                 raise vf.Infra("too many tuples crash or hang the driver child: %d" % len(bad2))
-    ck.note("tuples run on the code: %d (%d re-run after a child time-out / crash)" % (len(events), len(again)))
+    ck.note("tuples run on the code: %d (%d re-run after running into the driver's deadline or a child crash%s)" % (
+        len(events), len(again), (", e.g. [%s]" % lines[again[0]]) if again else ""))
     # ---- 4. the oracle
     judge(ck, plan, lines, events, "main")
     # ---- 5. oracle self-test, drift and vacuity (a violation already found is never hidden behind an infrastructure error)
